@@ -286,3 +286,6 @@ CHAIN_T = dict(scenario='chain', args=dict(max_tokens=3), label='chain_source_ma
 PLANS['C10'] = {'quick': [EXTRACT_Q, CHAIN_Q], 'thorough': [EXTRACT_T, CHAIN_T]}
 PLANS['C13']['quick'] = PLANS['C13']['quick'] + [CHAIN_Q, LITERALS_Q]
 PLANS['C13']['thorough'] = PLANS['C13']['thorough'] + [CHAIN_T, LITERALS_Q]
+
+
+PLANS['C09'] = {'quick': [ALL_D2, OPERANDS_Q, PROTO_Q, PLACEMENT_Q, TRANSFORM_Q], 'thorough': [ALL_D2, OPERANDS_Q, CONTEXTS_Q, PROTO_T, PLACEMENT_Q, PLACEMENT_T, TRANSFORM_Q]}
